@@ -662,6 +662,11 @@ def c15(F: Facts):
                     out.append(V('C15', 'handler_running_at_return', (bus, actor, ev)))
                     break
         # liveness: last activity on that bus before the return
+        # (premise: the bus *is* idle at the return.  An event it accepted - e.g. forwarded to it while the call was
+        # already waiting - that its run loop has taken off the queue but cannot start behind the global lock shows up
+        # neither as queued nor as pending or started, yet the bus still owes its processing: no lateness claim then)
+        if any(bb == bus and s < e and not F.processed(bus, ev, before=e) for (bb, ev), s in F.accepted.items()):
+            continue
         tq = tb
         for seq, t, a_, bb, ev, oc, hl in F.disps:
             if bb == bus and oc == 'ok' and seq < e:
